@@ -309,6 +309,8 @@ RatioOK(r, cnt, N) ==
   IF N = 0 THEN FALSE
   ELSE IF cfg.decimals < 0 \/ cfg.decimals > 4 THEN Abs(r * N - cnt * 1000000) <= N
   ELSE 2 * Abs(r * N - cnt * 1000000) <= N * Pow10(4 - cfg.decimals)
+\* decimals = 0 is printed with int(): truncation instead of rounding (known finding KF.C13.truncation)
+RatioTruncated(r, cnt, N) == cfg.decimals = 0 /\ N > 0 /\ r * N <= cnt * 1000000 /\ cnt * 1000000 < (r + 10000) * N
 HasFig(a, r) == a >= 0 \/ r >= 0
 FigIs(a, r, cnt, N) == (a >= 0 => a = cnt) /\ (r >= 0 => RatioOK(r, cnt, N))
 FigOK(key, inv, p, k, card, a, r) == FigIs(a, r, Count(key, inv, p, k, card), CC(key))
@@ -320,15 +322,19 @@ MaxCard == 1 + Cardinality(G)
 NLSum(key, inv, p, k, card, a, r) ==
   k = "NONLITERAL" /\ ~cfg.keepLess /\ card = PLUS /\
   \E c1, c2 \in 1..MaxCard : FigIs(a, r, Count(key, inv, p, "IRI", c1) + Count(key, inv, p, "BNode", c2), CC(key))
+TruncOK(key, inv, p, k, card, a, r) ==
+  LET cnt == Count(key, inv, p, k, card) IN (a >= 0 => a = cnt) /\ r >= 0 /\ RatioTruncated(r, cnt, CC(key))
 C01Shape(sh) ==
   (IF sh.n # -1 /\ sh.n # CC(sh.key) THEN {"C01.header"} ELSE {}) \cup
   UNION {
      UNION {IF ~HasFig(f[3], f[4]) \/ FactOK(sh.key, tc.inv, tc.p, f[1], f[2], f[3], f[4]) THEN {}
-            ELSE IF NLSum(sh.key, tc.inv, tc.p, f[1], f[2], f[3], f[4]) THEN {"KF.C01.nlsum"} ELSE {"C01.comment"} : f \in tc.com} \cup
+            ELSE IF NLSum(sh.key, tc.inv, tc.p, f[1], f[2], f[3], f[4]) THEN {"KF.C01.nlsum"}
+            ELSE IF TruncOK(sh.key, tc.inv, tc.p, f[1], f[2], f[3], f[4]) THEN {"KF.C13.truncation"} ELSE {"C01.comment"} : f \in tc.com} \cup
      (IF HasFig(tc.abs, tc.ratio) /\ tc.ks = {} /\ tc.card \notin {STAR, OPT} /\
          ~(\/ FactOK(sh.key, tc.inv, tc.p, tc.k, tc.card, tc.abs, tc.ratio)
            \/ (cfg.disableExact /\ tc.card = PLUS /\ \E c \in 2..MaxCard : FigOK(sh.key, tc.inv, tc.p, tc.k, c, tc.abs, tc.ratio)))
-      THEN (IF NLSum(sh.key, tc.inv, tc.p, tc.k, tc.card, tc.abs, tc.ratio) THEN {"KF.C01.nlsum"} ELSE {"C01.line"}) ELSE {}) \cup
+      THEN (IF NLSum(sh.key, tc.inv, tc.p, tc.k, tc.card, tc.abs, tc.ratio) THEN {"KF.C01.nlsum"}
+            ELSE IF TruncOK(sh.key, tc.inv, tc.p, tc.k, tc.card, tc.abs, tc.ratio) THEN {"KF.C13.truncation"} ELSE {"C01.line"}) ELSE {}) \cup
      (IF Over100(tc.abs, tc.ratio, CC(sh.key)) /\ ~(tc.k = "NONLITERAL" /\ BothKinds(sh.key, tc.inv, tc.p)) /\ tc.ks = {}
       THEN {"C01.over100"} ELSE {}) \cup
      (IF \E f \in tc.com : Over100(f[3], f[4], CC(sh.key)) /\ ~(f[1] = "NONLITERAL" /\ BothKinds(sh.key, tc.inv, tc.p)) THEN {"C01.over100"} ELSE {})
@@ -339,20 +345,31 @@ KeyOfTc(tc) == <<tc.inv, tc.p, VC(tc.p, IF tc.ks # {} THEN "NONLITERAL" ELSE tc.
 \* a key that is expected but absent only because every single node kind is below the threshold (known finding)
 MixedMiss(key, q) == q[3] = "nonliteral" /\ ~SomeKindPasses(key, q[1], q[2])
 RequestedEmpty == IF cfg.mode = "classes" /\ ~cfg.removeEmpty THEN ToSet(cfg.targets) ELSE {}
-C02Shape(sh) ==
+\* known finding KF.C02.cleanref: when an empty shape is removed, every constraint that referred to it is dropped as a
+\* whole instead of falling back to the plain node kind: the key is lost although its frequency is >= t
+RefToGone(key, q, present) ==
+  q[3] = "nonliteral" /\ \E k2 \in LiveKeys \ present :
+      Sh(k2) \in KindsPresent(key, q[1], q[2]) /\ FreqOK(Count(key, q[1], q[2], Sh(k2), PLUS), CC(key), cfg.thr)
+C02Shape(sh, present) ==
   LET got == {KeyOfTc(tc) : tc \in sh.tcs}
       want == ExpectedKeys(sh.key)
+      missing == want \ got
   IN (IF got \ want # {} THEN {"C02.extra"} ELSE {}) \cup
-     (IF \E q \in want \ got : ~MixedMiss(sh.key, q) THEN {"C02.missing"} ELSE {}) \cup
-     (IF \E q \in want \ got : MixedMiss(sh.key, q) THEN {"KF.C02.mixedkinds"} ELSE {}) \cup
+     UNION {IF MixedMiss(sh.key, q) THEN {"KF.C02.mixedkinds"}
+            ELSE IF cfg.removeEmpty /\ RefToGone(sh.key, q, present) THEN {"KF.C02.cleanref"} ELSE {"C02.missing"} : q \in missing} \cup
      (IF \E a, b \in sh.tcs : a # b /\ KeyOfTc(a) = KeyOfTc(b) THEN {"C02.dup"} ELSE {})
-\* shapes all of whose keys are filtered may be dropped when remove_empty_shapes is on
-Droppable(key) == cfg.removeEmpty /\ \A q \in ExpectedKeys(key) : MixedMiss(key, q)
+\* shapes all of whose keys are filtered may be dropped when remove_empty_shapes is on (also in cascade: a shape whose
+\* only surviving constraints referred to dropped shapes)
+RECURSIVE DroppableSet(_)
+DroppableSet(D) ==
+  LET D2 == D \cup {k \in LiveKeys : \A q \in ExpectedKeys(k) : MixedMiss(k, q) \/ RefToGone(k, q, LiveKeys \ D)}
+  IN IF D2 = D THEN D ELSE DroppableSet(D2)
 C02(obs) ==
   LET got == {s.key : s \in obs}
-  IN UNION {C02Shape(sh) : sh \in {x \in obs : x.key \in Keys}} \cup
+      droppable == IF cfg.removeEmpty THEN DroppableSet({}) ELSE {}
+  IN UNION {C02Shape(sh, got) : sh \in {x \in obs : x.key \in Keys}} \cup
      (IF got \ (LiveKeys \cup RequestedEmpty) # {} THEN {"C02.shape.extra"} ELSE {}) \cup
-     (IF \E k \in (LiveKeys \cup RequestedEmpty) \ got : ~Droppable(k)
+     (IF \E k \in (LiveKeys \cup RequestedEmpty) \ got : k \notin droppable
       THEN {"C02.shape.missing"} ELSE {}) \cup
      (IF \E a, b \in obs : a # b /\ a.key = b.key THEN {"C02.shape.dup"} ELSE {})
 
@@ -414,9 +431,33 @@ C10Inst(tracked) ==   \* tracked : set of <<node, key>>
 
 \* ---- C05 (closure, at the level of the abstract schema): references resolve
 C05Closed(obs) ==
-  IF \E sh \in obs : \E tc \in sh.tcs :
-        \E k \in (IF tc.ks # {} THEN tc.ks ELSE {tc.k}) : IsShape(k) /\ KeyOfShape(k) \notin {s.key : s \in obs}
-  THEN {"C05.dangling"} ELSE {}
+  LET refs == UNION {UNION {{k \in (IF tc.ks # {} THEN tc.ks ELSE {tc.k}) : IsShape(k)} : tc \in sh.tcs} : sh \in obs}
+      tilde(k) == Len(k) >= 2 /\ SubSeq(k, 1, 2) = "@~"
+  IN (IF \E k \in refs : ~tilde(k) /\ KeyOfShape(k) \notin {s.key : s \in obs} THEN {"C05.dangling"} ELSE {}) \cup
+     (IF \E k \in refs : tilde(k) THEN {"KF.C05.shapesns"} ELSE {})
+
+(***************************************************************************)
+(* Projections of a schema used by the relational properties (Campaign)    *)
+(***************************************************************************)
+ConsOf(obs) == UNION {{<<s.key, tc.inv, tc.p, tc.k, tc.ks, tc.card>> : tc \in s.tcs} : s \in obs}
+KeysIn(obs) == UNION {{<<s.key, KeyOfTc(tc)>> : tc \in s.tcs} : s \in obs}
+Heads(obs) == {<<s.key, s.n>> : s \in obs}
+\* every (shape, direction, property, kind, cardinality, count) fact printed on a line or in a comment
+Facts(obs) == UNION {UNION {(IF tc.abs >= 0 /\ tc.ks = {} THEN {<<s.key, tc.inv, tc.p, tc.k, tc.card, tc.abs>>} ELSE {}) \cup
+                            {<<s.key, tc.inv, tc.p, f[1], f[2], f[3]>> : f \in {g \in tc.com : g[3] >= 0}} : tc \in s.tcs} : s \in obs}
+\* (shape, direction, property) groups in which the code resolves a frequency tie by dict-insertion order
+TieGroups ==
+  LET inst == TrackF IN
+  UNION {LET pr == ProfOf(inst, k)
+             cands == CandF(pr, Cardinality(OpInst(inst, k)))
+             keys3 == {<<q[1], q[2], q[3]>> : q \in cands}
+             grp(key) == {Stmt(q[1], q[2], q[3], q[4], pr[q], {}) : q \in {x \in cands : <<x[1], x[2], x[3]>> = key}}
+             sel == SelectF(pr, cands)
+             dp == {<<s.inv, s.p>> : s \in {x \in sel : IsNL(x)}}
+         IN {<<k, key[1], key[2]>> : key \in {y \in keys3 : SelectTie(grp(y))}} \cup
+            {<<k, x[1], x[2]>> : x \in {y \in dp : MergeTie({s \in sel : IsNL(s) /\ <<s.inv, s.p>> = y})}}
+         : k \in OpKeys(inst)}
+OutsideTies(facts) == {f \in facts : <<f[1], f[2], f[3]>> \notin TieGroups}
 
 \* ---- schema of the operational model in the same shape as an observed one
 OpObs(out) == {[key |-> k, n |-> Cardinality(OpInst(TrackF, k)),
